@@ -2,6 +2,7 @@
 //! callback environment, the per-grammar exploration driver and the oracles.
 
 pub mod driver;
+pub mod history;
 pub mod oracle;
 pub mod tree;
 
@@ -118,6 +119,8 @@ pub trait Subject {
     fn token_names(&self) -> &'static [&'static str];
     /// maps an input byte to the token discriminant (as the harness lexer does)
     fn run(&self, entry: usize, input: &[u8], script: &Script) -> Obs;
+    /// the real tree builder of this parser (engine C)
+    fn builder(&self) -> Box<dyn history::Builder>;
 }
 
 pub fn json_str(s: &str) -> String {
